@@ -28,6 +28,14 @@ func c10Finder(run *Run, j *histJob) {
 	if newAfterTerminate(r) {
 		run.Fail("C10:attempt-after-terminate", "TerminateStream returned true, yet a retry (with its Retries reservation) was started afterwards", replay)
 	}
+	// upstream streams: a retry must not start while an earlier attempt's stream is still open (the pool's Requests resource and
+	// UpstreamRequestActive are released only when the stream is reset / destroyed / answered)
+	for _, x := range r.Rec {
+		if x.Kind == "up.new" && x.Code > 0 {
+			run.Fail("C10:upstream-stream-open-at-retry", fmt.Sprintf("attempt %d started while %d earlier attempt stream(s) of this request were still open (never reset): their Requests admission / UpstreamRequestActive stay counted", x.K, x.Code), replay)
+			break
+		}
+	}
 	over := r.Done
 	if !over {
 		return // a hanging request is C03's finding; nothing is idle yet
@@ -40,6 +48,16 @@ func c10Finder(run *Run, j *histJob) {
 			sig = "C10:negative:retries"
 		}
 		run.Fail(sig, fmt.Sprintf("Retries().Cur() changed by %+d over one finished request (max_retries=%d)", r.Res, sp.MaxRetries), replay)
+	}
+	if finished && r.Req != 0 && sp.GroupKey == "" && !sp.Oneway {
+		sig := "C10:requests-nonzero-at-idle"
+		switch {
+		case r.Req < 0:
+			sig = "C10:negative:requests"
+		case terminateDelivered(r):
+			sig = "C10:requests-nonzero-at-idle:upstream-left-open-after-terminate"
+		}
+		run.Fail(sig, fmt.Sprintf("Requests().Cur() / UpstreamRequestActive changed by %+d over one finished request: an upstream stream was never reset", r.Req), replay)
 	}
 	if finished && r.Gauge != 0 {
 		sig := "C10:gauge-nonzero-at-idle"
@@ -61,6 +79,12 @@ func genC10(run *Run) []*Spec {
 			specs = append(specs, sp)
 		}
 	}
+	// per-try time-outs that are retried, upstream silent, Requests breaker at 1: each timed-out attempt must be released before
+	// the retry is admitted
+	for _, nr := range []int{1, 2} {
+		specs = append(specs, &Spec{Route: "forward", NHosts: 2, RouteGlobalMs: 5 * slot, RouteTryMs: slot, RetryOn: true, NumRetries: nr, MaxRequests: 1},
+			&Spec{Route: "forward", NHosts: 2, RouteGlobalMs: 5 * slot, RouteTryMs: slot, RetryOn: true, NumRetries: nr, MaxRequests: 4, HasData: true})
+	}
 	n := run.N(450, 8000)
 	for i := 0; i < n; i++ {
 		sp := &Spec{Route: "forward", NHosts: 2, RouteGlobalMs: (3+r.Intn(2))*slot + 20, MaxRetries: r.Intn(4), RetryOn: r.Intn(4) != 0, NumRetries: r.Intn(4)}
@@ -72,6 +96,9 @@ func genC10(run *Run) []*Spec {
 		}
 		if r.Intn(3) == 0 {
 			sp.RouteTryMs = slot + 20
+		}
+		if r.Intn(4) == 0 {
+			sp.MaxRequests = 1 + r.Intn(3) // with 1, a retry on top of a leaked stream would be refused with a spurious overflow
 		}
 		if r.Intn(5) == 0 {
 			sp.StatusCodes = []int{503, 504}
